@@ -63,19 +63,19 @@ Next == /\ phase = 0 /\ phase' = 1 /\ di' = di
 D == DocSeq[di]
 Lits == {1, 2, 3}     \* indices of Vals1 that are literals
 PlainIdx == (DOMAIN Paths1) \ {21, 22}   \* paths proper: not selections that depend on the values they replace
-PutGet == \A pi \in PlainIdx : \A vi \in Lits :
+PutGet == phase = 1 => \A pi \in PlainIdx : \A vi \in Lits :
    LET r == Run(EPipe(EAssign(Paths1[pi], Vals1[vi]), Paths1[pi]), D) IN
    r.st # "ok" \/ \A j \in DOMAIN r.ctx : VEq(ValOf(r.doc, r.ctx[j]), Vals1[vi].v)
-GetPut == \A pi \in DOMAIN Paths1 :
+GetPut == phase = 1 => \A pi \in DOMAIN Paths1 :
    LET rd == Ev(Paths1[pi], RO(St(D, <<InDoc(<<>>)>>, TRUE)))                \* does the path exist (read-only probe)?
        r == Run(EAssign(Paths1[pi], Paths1[pi]), D) IN
    rd.st # "ok" \/ rd.ctx = <<>> \/ r.st # "ok" \/ Len(rd.ctx) > 1 \/ Len(Run(Paths1[pi], D).ctx) # 1 \/ r.doc = D   \* p exists entirely
-PutPut == \A pi \in PlainIdx :
+PutPut == phase = 1 => \A pi \in PlainIdx :
    LET r2 == Run(EPipe(EAssign(Paths1[pi], Vals1[1]), EAssign(Paths1[pi], Vals1[2])), D)
        r1 == Run(EAssign(Paths1[pi], Vals1[2]), D) IN
    r1.st # "ok" \/ r2.st # "ok" \/ r1.doc = r2.doc
 \* frame: every path that is neither a prefix nor an extension of an assigned position reads the same before and after
-Frame == \A pi \in DOMAIN Paths1 :
+Frame == phase = 1 => \A pi \in DOMAIN Paths1 :
    LET L == Run(Paths1[pi], D)                                              \* the positions the path addresses (after auto-creation)
        r == Run(EAssign(Paths1[pi], Vals1[1]), D) IN
    L.st # "ok" \/ r.st # "ok" \/ L.ctx = <<>> \/          \* (a path that matches nothing still creates its prefix)
